@@ -18,3 +18,4 @@ import ChessVerif.Props.C02core
 #print axioms ChessVerif.Props.C02core.abs_make_eq_apply_of_ep
 #print axioms ChessVerif.Props.C02core.isEnPassant_agree
 #print axioms ChessVerif.Props.C02core.isCastling_agree
+#print axioms ChessVerif.Props.C02.uci_full
